@@ -439,3 +439,28 @@ def r16e(model: Model, rr: RuleResult):
     else:
         rr.bad(fi, fi.node, "int16_safe no longer demands integrality: fractional offsets would be truncated in an int16 field",
                construct="int16_safe: integrality test")
+
+
+@RULES.rule("C16", "R16d", "radial split typing: circles mapped by the uniform part only; the residual wraps the gradient (E4)", floor=8)
+def r16d(model: Model, rr: RuleResult):
+    from .spaces_common import report
+    report(model, rr, [("paint", "PaintRadialGradient.apply_transform"), ("paint", "PaintLinearGradient.apply_transform")],
+           "The uniform (circle-preserving) part must be applied to the circles and the residual must wrap the result, never the other way round")
+    fi = model.func("paint", "PaintRadialGradient.apply_transform")
+    t = " ".join(norm(st) for st in fi.body)
+    if "sx, _ = uniform_transform.getscale()" in t and "r0 = self.r0 * sx" in t and "r1 = self.r1 * sx" in t:
+        rr.ok("radii are scaled by the uniform part's scale")
+    else:
+        rr.bad(fi, fi.node, "radii are not scaled by the uniform transform's scale factor", construct="PaintRadialGradient.apply_transform: radii")
+    d = model.func("paint", "_decompose_uniform_transform")
+    rets = [st for st in walk_body(d) if isinstance(st, ast.Return)]
+    if rets and norm(rets[0].value) == "(uniform_transform, remaining_transform)":
+        rr.ok("_decompose_uniform_transform returns (uniform, remaining) in that order")
+    else:
+        rr.bad(d, d.node, "_decompose_uniform_transform no longer returns (uniform, remaining)", construct="_decompose_uniform_transform: return order")
+    comp = [c for c in calls_in(d) if norm(c.func) == "Affine2D.compose_ltr"]
+    txt = [norm(c.args[0]) for c in comp]
+    if "(uniform_scale.inverse(), scale, remaining_transform)" in txt and "(uniform_scale, translate)" in txt:
+        rr.ok("remaining = uniform_scale^-1 . scale . rest; uniform = uniform_scale then translate (so uniform . remaining = original)")
+    else:
+        rr.bad(d, d.node, f"the decomposition no longer recomposes to the original transform (compositions: {txt})", construct="_decompose_uniform_transform: compositions")
